@@ -679,3 +679,59 @@ func ruleCarriedState(c *Ctx, sa *sharedAnalysis, r *Report, rule string, allowe
 		}
 	}
 }
+
+// ruleNoCarriedReads: inside the given functions no in-memory location that block processing writes may be
+// read (other than the allowed ones): their outcome must depend on the chain and the database only.
+func ruleNoCarriedReads(c *Ctx, sa *sharedAnalysis, r *Report, rule string, scope map[*ssa.Function]bool, allowed map[string]string, what string) {
+	sum := sa.summarize()
+	var locs []string
+	for l := range sum {
+		locs = append(locs, l)
+	}
+	sort.Strings(locs)
+	n := 0
+	for _, l := range locs {
+		s := sum[l]
+		if len(s.SyncW) == 0 {
+			continue
+		}
+		var readers []*Access
+		for _, a := range s.SyncR {
+			if scope[a.Fn] {
+				readers = append(readers, a)
+			}
+		}
+		if len(readers) == 0 {
+			continue
+		}
+		n++
+		cons := fmt.Sprintf("%s reads carried location %s", what, l)
+		if why, ok := allowed[l]; ok {
+			r.audited(rule, cons, c.ipos(readers[0].Ins), why)
+			continue
+		}
+		r.viol(rule, cons, c.ipos(readers[0].Ins), fmt.Sprintf("%s reads %s (%s), in-memory state written while blocks are applied (%s) and not part of the block transaction: after a rolled-back attempt, a retry or a restart it no longer matches the database", what, l, accDesc(c, readers, 2), accDesc(c, s.SyncW, 2)))
+	}
+	if n == 0 {
+		r.okNT(rule, what+" reads no carried in-memory state", "-", fmt.Sprintf("%d functions in scope", len(scope)))
+	}
+}
+
+func reachOf(c *Ctx, names ...string) map[*ssa.Function]bool {
+	var roots []*ssa.Function
+	for _, n := range names {
+		roots = append(roots, c.fn(n))
+	}
+	return c.reach(roots...)
+}
+
+var carriedAllowedSync = map[string]string{
+	"pegnet.BlockSync.Synced": "the sync height: advanced only after Commit, persisted in the block transaction and restored at start-up",
+}
+
+var carriedAllowedAverages = map[string]string{
+	"pegnet.BlockSync.Synced":           carriedAllowedSync["pegnet.BlockSync.Synced"],
+	"node.Pegnetd.LastAverages":         "rolling-average cache: its restart dependence is the known finding recorded under C09; it is filled from committed rows of earlier heights only, so a rolled-back attempt leaves it as a committed one would",
+	"node.Pegnetd.LastAveragesData":     "see LastAverages",
+	"node.Pegnetd.LastAveragesHeight":   "see LastAverages",
+}
